@@ -75,6 +75,53 @@ SEQUENCES = {
     'COVSubscription': [(0, R, 'cons'), (1, R, 'cons'), (2, R, 1), (3, R, 2), (4, O, 4)],
     'DeviceAddress': [(None, R, 2), (None, R, 6)],
     'DateRange': [(None, R, 10), (None, R, 10)],
+    # ---- round 2 (builder C03): more services, errors, base types, notification parameters
+    'GetAlarmSummaryAlarmSummary': [(None, R, 12), (None, R, 9), (None, R, 8)],
+    'GetAlarmSummaryACK': [(None, R, 'seqof')],
+    'GetEnrollmentSummaryRequest': [(0, R, 9), (1, O, 'cons'), (2, O, 9), (3, O, 9), (4, O, 'cons'), (5, O, 2)],
+    'GetEnrollmentSummaryRequestPriorityFilterType': [(0, R, 2), (1, R, 2)],
+    'GetEnrollmentSummaryEnrollmentSummary': [(None, R, 12), (None, R, 9), (None, R, 9), (None, R, 2), (None, O, 2)],
+    'GetEnrollmentSummaryACK': [(None, R, 'seqof')],
+    'GetEventInformationEventSummary': [(0, R, 12), (1, R, 9), (2, R, 8), (3, R, 'seqof'), (4, R, 9), (5, R, 8), (6, R, 'seqof')],
+    'CreateObjectACK': [(None, R, 12)],
+    'RangeByPosition': [(None, R, 2), (None, R, 3)],
+    'RangeBySequenceNumber': [(None, R, 2), (None, R, 3)],
+    'RangeByTime': [(None, R, 'cons'), (None, R, 3)],
+    'VTOpenRequest': [(None, R, 9), (None, R, 2)],
+    'VTOpenACK': [(None, R, 2)],
+    'VTCloseRequest': [(None, R, 'seqof')],
+    'VTDataRequest': [(None, R, 2), (None, R, 6), (None, R, 2)],
+    'VTDataACK': [(0, R, 1), (1, O, 2)],     # acceptedOctetCount: present only if allNewDataAccepted = FALSE
+    'WhoHasRequest': [(None, O, 'cons'), (None, R, 'cons')],
+    'WriteGroupRequest': [(0, R, 2), (1, R, 2), (2, R, 'seqof'), (3, O, 1)],
+    'GroupChannelValue': [(0, R, 2), (1, O, 2), (None, R, 'cons')],
+    'ChangeListError': [(0, R, 'cons'), (1, R, 2)],
+    'CreateObjectError': [(0, R, 'cons'), (1, R, 2)],
+    'WritePropertyMultipleError': [(0, R, 'cons'), (1, R, 'cons')],
+    'ConfirmedPrivateTransferError': [(0, R, 'cons'), (1, R, 2), (2, R, 2), (3, O, 'any')],
+    'VTCloseError': [(0, R, 'cons'), (1, O, 'seqof')],
+    'AddressBinding': [(None, R, 12), (None, R, 'cons')],
+    'Destination': [(None, R, 8), (None, R, 11), (None, R, 11), (None, R, 'cons'), (None, R, 2), (None, R, 1), (None, R, 8)],
+    'TimeValue': [(None, R, 11), (None, R, 'any')],
+    'DailySchedule': [(0, R, 'seqof')],
+    'SpecialEvent': [(None, R, 'cons'), (2, R, 'seqof'), (3, R, 2)],
+    'ActionCommand': [(0, O, 12), (1, R, 12), (2, R, 9), (3, O, 2), (4, R, 'any'), (5, O, 2), (6, O, 2), (7, R, 1), (8, R, 1)],
+    'ActionList': [(0, R, 'seqof')],
+    'SetpointReference': [(0, O, 'cons')],
+    'VTSession': [(None, R, 2), (None, R, 2), (None, R, 'cons')],
+    'Prescale': [(0, R, 2), (1, R, 2)],
+    'AccumulatorRecord': [(0, R, 'cons'), (1, R, 2), (2, R, 2), (3, R, 9)],
+    'LogRecord': [(0, R, 'cons'), (1, R, 'cons'), (2, O, 8)],
+    'NotificationParametersChangeOfBitstring': [(0, R, 8), (1, R, 8)],
+    'NotificationParametersChangeOfState': [(0, R, 'cons'), (1, R, 8)],
+    'NotificationParametersChangeOfValue': [(0, R, 'cons'), (1, R, 8)],
+    'NotificationParametersCommandFailure': [(0, R, 'any'), (1, R, 8), (2, R, 'any')],
+    'NotificationParametersFloatingLimit': [(0, R, 4), (1, R, 8), (2, R, 4), (3, R, 4)],
+    'NotificationParametersOutOfRange': [(0, R, 4), (1, R, 8), (2, R, 4), (3, R, 4)],
+    'NotificationParametersChangeOfLifeSafety': [(0, R, 9), (1, R, 9), (2, R, 8), (3, R, 9)],
+    'NotificationParametersExtended': [(0, R, 2), (1, R, 2), (2, R, 'seqof')],      # parameters [2] SEQUENCE OF CHOICE {...}
+    'NotificationParametersBufferReady': [(0, R, 'cons'), (1, R, 2), (2, R, 2)],
+    'NotificationParametersUnsignedRange': [(0, R, 2), (1, R, 8), (2, R, 2)],
 }
 
 # CHOICE productions: the alternatives in order as (context number or None, kind)
@@ -91,6 +138,18 @@ CHOICES = {
     'WhoHasObject': [(2, 12), (3, 7)],
     'ConfirmedTextMessageRequestMessageClass': [(0, 2), (1, 7)],
     'UnconfirmedTextMessageRequestMessageClass': [(0, 2), (1, 7)],
+    # ---- round 2 (builder C03)
+    'SpecialEventPeriod': [(0, 'cons'), (1, 12)],
+    'CalendarEntry': [(0, 10), (1, 'cons'), (2, 6)],
+    'Scale': [(0, 4), (1, 3)],
+    'LogRecordLogDatum': [(0, 8), (1, 1), (2, 4), (3, 9), (4, 2), (5, 3), (6, 8), (7, 0), (8, 'cons'), (9, 4), (10, 'any')],
+    'NotificationParametersChangeOfValueNewValue': [(0, 8), (1, 4)],
+    # extended.parameters: ... enum ENUMERATED, reference [0] BACnetDeviceObjectPropertyReference
+    'NotificationParametersExtendedParametersType': [(None, 0), (None, 4), (None, 2), (None, 1), (None, 5), (None, 6), (None, 8), (None, 9), (0, 'cons')],
+    # BACnetNotificationParameters (135-2012): complex-event-type [6] SEQUENCE OF BACnetPropertyValue; 7 and 12 unused
+    'NotificationParameters': [(0, 'cons'), (1, 'cons'), (2, 'cons'), (3, 'cons'), (4, 'cons'), (5, 'cons'), (6, 'seqof'),
+                               (8, 'cons'), (9, 'cons'), (10, 'cons'), (11, 'cons'), (13, 'cons'), (14, 'cons'), (15, 'cons'),
+                               (16, 'cons'), (17, 'cons'), (18, 'cons'), (19, 'cons')],
 }
 
 # service choice numbers (clause 21, BACnetConfirmedServiceChoice / BACnetUnconfirmedServiceChoice)
